@@ -119,6 +119,8 @@ def check(ctx):
     table_rule(ctx, 'R04.1h', lambda p: bool(HELP.match(p)), 'predicate helpers of the front end (returned values compared as well)')
     r_grammar_words(ctx, 'R04.4')
     r_reviewed_grammar(ctx, 'R04.6')
+    from . import c13
+    c13.r_signatures(ctx, 'R04.8')   # a jet call is well-typed against the jet's signature
     group_rule(ctx, 'R04.7', PARSERS, 'parse-tree construction (every PestParse::parse): which child becomes which field, in which order', 30)
     ctx.floor('R04.1', 'front-end functions with a decision table', f, 40)
     ctx.floor('R04.1', 'decision rows', n, 200)
